@@ -349,6 +349,17 @@ def extract_fn(repo, d, template_text):
     if re.search(r"\|\s*_\s*\|", body):
         body = re.sub(r"\|\s*_\s*\|", "|_e|", body)
         tr.append({"kind": "underscore-closure"})
+    # `debug_assert_eq!(a, b);` -> `debug_assert!(a == b);` (same condition; Verus proves debug_assert!'s condition as an
+    # obligation but does not know assert_eq's panic plumbing). Only the two-argument form without a message.
+    def _dbg_eq(m):
+        args = _split_top(m.group(1))
+        if len(args) != 2:
+            raise ExtractError("debug_assert_eq! with a message is not handled")
+        return f"debug_assert!({args[0].strip()} == {args[1].strip()});"
+    n_eq = len(re.findall(r"\bdebug_assert_eq!\(", body))
+    if n_eq:
+        body = re.sub(r"\bdebug_assert_eq!\(((?:[^()]|\([^()]*\))*)\);", _dbg_eq, body)
+        tr.append({"kind": "debug-assert-eq", "count": n_eq})
     for c in sorted(d.get("closures", []), key=lambda x: -x["n"]):
         whole = _apply_closure(sig + body, c["n"], c["text"], tr)
         sig, body = _resplit(whole)
@@ -596,7 +607,15 @@ def extract_type(repo, d):
         raise ExtractError(str(e))
     if it is None:
         # tuple struct / type alias: one line ending in `;`
-        m = [x for x in re.finditer(r"^[ \t]*(?:pub(?:\([a-z:_ ]+\))?\s+)?(?:struct|type|const)\s+%s\b[^;{]*;" % re.escape(d["name"]), src, re.M)]
+        scope_lo, scope_hi = 0, len(src)
+        if d.get("impl"):
+            # an associated const: looked up inside the one impl block whose header matches
+            blks = rustscan.find_block(src, d["impl"] + r"(?=\s*(\{|where\b))", all_matches=True)
+            if len(blks) != 1:
+                raise ExtractError(f"lost anchor: {len(blks)} items match /{d['impl']}/")
+            scope_lo, scope_hi = blks[0].body_open, blks[0].body_close
+        m = [x for x in re.finditer(r"^[ \t]*(?:pub(?:\([a-z:_ ]+\))?\s+)?(?:struct|type|const)\s+%s\b[^;{]*;" % re.escape(d["name"]), src, re.M)
+             if scope_lo <= x.start() < scope_hi]
         if len(m) != 1:
             raise ExtractError(f"lost anchor: type {d['name']} not found in {d['file']}")
         text = m[0].group(0).strip()
